@@ -26,13 +26,18 @@ XC == IF Wide THEN {0, 1, 2} ELSE {0, 2}
 Extras == IF Wide THEN 0..5 ELSE {0, 3, 5}
 ExtShapes == IF Wide THEN 0..4 ELSE {0, 2, 4}
 
+\* how the lists are named and labelled: plain names / names containing a dot (legal; only a recognised file extension means
+\* "from file") x plain labels / translated labels (the list then goes through itext: items carry itextId, selects read it)
+Styles == IF Wide THEN {"plain", "dotted", "itext", "dotted_itext"} ELSE {"plain", "dotted_itext"}
+IsItext(c) == c.style \in {"itext", "dotted_itext"}
 VARIABLES cfg, sels, phase
 gvars == <<cfg, sels, phase>>
 
 GInit == /\ cfg \in [nl : NL, nm : NM, nu : {0, 1}, xc : XC, fill : Fill, inter : BOOLEAN, dup : BOOLEAN,
-                     depth : 0..2, extras : Extras, ext : ExtShapes, own : {"none", "mid", "last"}]
+                     depth : 0..2, extras : Extras, ext : ExtShapes, own : {"none", "mid", "last"}, style : Styles]
          /\ (cfg.own # "none" => cfg.nm >= 2)                 \* list M defines its own choice named 'other' (first or last row)
          /\ (~Wide => (cfg.own = "none" \/ (cfg.xc = 0 /\ cfg.extras = 0 /\ cfg.ext = 0 /\ cfg.depth = 0)))
+         /\ (~Wide => (cfg.style = "plain" \/ (cfg.extras = 0 /\ cfg.ext \in {0, 2} /\ cfg.own = "none")))
          /\ (cfg.xc = 0 => cfg.fill = "all")                 \* sparsity only matters with extra columns
          /\ (cfg.nm = 0 => ~cfg.inter)                        \* interleaving needs two lists
          /\ (cfg.dup => cfg.nl >= 2)
@@ -45,7 +50,8 @@ AddSelect(v) ==
   /\ phase = "build" /\ Len(sels) < MaxSel
   /\ (v \in NeedsM => cfg.nm > 0)
   /\ (v = "search" => ~UsesMPlain(sels)) /\ (v \in {"oneM", "other"} => ~UsesSearch(sels))
-  /\ (v = "external" => cfg.ext > 0) 
+  /\ (v = "external" => cfg.ext > 0)
+  /\ (v = "search" => ~IsItext(cfg))                       \* (inline items of a translated list: out of this model)
   /\ sels' = Append(sels, v) /\ UNCHANGED <<cfg, phase>>
 Close == phase = "build" /\ Len(sels) > 0 /\ (cfg.ext > 0 => \E i \in 1..Len(sels) : sels[i] = "external")
          /\ phase' = "done" /\ UNCHANGED <<cfg, sels>>
